@@ -169,6 +169,13 @@ def gen_name(rng):
     return "/".join(comps)
 
 
+def gen_ticks(rng):
+    """FILETIME values over the whole unsigned 64-bit range, the ends included"""
+    if rng.random() < 0.25:
+        return rng.choice([0, 0, 1, 2 ** 63 - 1, 2 ** 63, 2 ** 64 - 1, 116444736000000000])
+    return rng.getrandbits(rng.choice([20, 57, 63, 64]))
+
+
 def gen_header(rng, *, writer_like=True, partial_vectors=False, nfiles=None, nfolders=None, allow_empty_folders=False):
     """A header as py7zr's own writer builds it (writer_like) or a more general one."""
     h = ai.Header()
@@ -180,14 +187,14 @@ def gen_header(rng, *, writer_like=True, partial_vectors=False, nfiles=None, nfo
             if rng.random() < 0.5:
                 f["lastwritetime"] = None
         else:
-            f["lastwritetime"] = ai.ArchiveTimestamp(rng.getrandbits(rng.choice([20, 57, 63, 64])))
+            f["lastwritetime"] = ai.ArchiveTimestamp(gen_ticks(rng))
         if partial_vectors and rng.random() < 0.4:
             if rng.random() < 0.5:
                 f["attributes"] = None
         else:
-            f["attributes"] = rng.getrandbits(32)
+            f["attributes"] = rng.choice([0, 0, 1, 0x20, 0xFFFFFFFF]) if rng.random() < 0.2 else rng.getrandbits(32)
         if rng.random() < 0.5:
-            f["creationtime"] = ai.ArchiveTimestamp(rng.getrandbits(60))
+            f["creationtime"] = ai.ArchiveTimestamp(gen_ticks(rng))
         files.append(f)
     fi = ai.FilesInfo()
     fi.files = files
